@@ -914,6 +914,10 @@ def run_impl(case):
         except Exception as e:  # noqa
             obs["reject"] = f"parse: {type(e).__name__}: {str(e)[:120]}"
         return obs
+    if k == "v2witness":
+        with _quiet():
+            parsed = _M["parse"]("gen.co", content=case["src"], include_source_mapping=False, version="2.x")
+        return {"version": "2.x", "witness": True, "flows": compile_v2_flows(parsed["flows"], False)}
     if k == "v2ast":
         A = _M["A"]
         flow = A.Flow(name="main", elements=build_v2_ast(case["stmts"]), file_info={"name": "gen"})
@@ -938,6 +942,8 @@ def run_impl(case):
 
 def model_requests(case, obs):
     reqs = []
+    if obs.get("witness"):
+        return [{"m": "C12.witness"}]
     for f in obs.get("flows", []):
         if obs["version"] == "2.x":
             if "prog" in f:
@@ -982,7 +988,32 @@ def canon_labels(prog):
     return out
 
 
+def canon_full(prog):
+    """rename every label / uid completely by first occurrence (structure only)"""
+    ren = {}
+
+    def r(x):
+        if x is None:
+            return None
+        return ren.setdefault(x, "L%d" % len(ren))
+
+    out = []
+    for p in prog:
+        t = p[0]
+        if t in ("label", "goto", "merge", "begin", "end", "catch", "break", "continue"):
+            out.append([t, r(p[1])])
+        elif t == "fork":
+            out.append([t, r(p[1]), [r(x) for x in p[2]]])
+        else:
+            out.append(list(p))
+    return out
+
+
 def compare(case, obs, mouts):
+    if obs.get("witness"):
+        real = canon_full(obs["flows"][-1]["prog"][1:])  # [0] is the flow's implicit `match StartFlow(...)`
+        wit = canon_full(mouts[0]["prog"])
+        return None if real == wit else f"the Lean witness program of finding 2.x:scope-reopened is no longer what expand_elements produces: {wit} vs {real}"
     it = iter(mouts)
     for f in obs.get("flows", []):
         if obs["version"] == "2.x":
